@@ -28,7 +28,10 @@ TRUSTED = [
     "CPython numeric hash: ints |x|<2^53 hash to themselves except hash(-1) = -2 (slot model in PyVal.v)",
 ]
 ASSUMPTIONS = ["ints |x| < 2^53, finite floats", "dicts nested inside list values hold scalars only",
-               "$where (eval) is outside the documented grammar and not generated"]
+               "$where (eval) is outside the documented grammar and not generated",
+               "implicit equality with an EMPTY mapping ({'a': {}}) is ill-typed in the reference semantics, as in the code "
+               "(TypeError); $near and the order operators are ill-typed on a corpus in which some job holds a value they "
+               "cannot be applied to"]
 
 
 SMALL_VALUES = [0, 1, 1.0, True, -1, -1.0, 0.5, "x", None, [1, 2], {"x": 1}]
